@@ -813,8 +813,9 @@ func c15Edge() []c15Input {
 		Raw: []byte(`{"SurfacedProposals":[[{"Trigger":{"BlockNumber":72057594037927935},"UpkeepID":[]}]]}`)})
 	out = append(out, c15Input{Kind: "obs", Mode: "gcstress", Note: "edge:zero-fill"}, c15Input{Kind: "outcome", Mode: "gcstress", Note: "edge:zero-fill"})
 
-	// state across calls: concurrent encoders
+	// state across calls: concurrent encoders, concurrent decoders
 	out = append(out, c15Input{Kind: "obs", Mode: "encstress", Note: "edge:concurrent-encode"}, c15Input{Kind: "outcome", Mode: "encstress", Note: "edge:concurrent-encode"})
+	out = append(out, c15Input{Kind: "obs", Mode: "decstress", Note: "edge:concurrent-decode"}, c15Input{Kind: "outcome", Mode: "decstress", Note: "edge:concurrent-decode"})
 
 	// one log upkeep several times in one message (different logs, hence different work ids):
 	// twice performable, performable and proposed, proposed in two rounds
